@@ -601,7 +601,7 @@ impl Sim {
                     None => None,
                 }
             }
-            Op::Get(_) | Op::Has(_) | Op::Stats => None,
+            Op::Get(_) | Op::Has(_) | Op::Stats | Op::IsDeleted(_) | Op::AddrDeleted(_) | Op::Holder(_) | Op::GetOff(_) => None,
             Op::RemoveBackup(which) => {
                 let e = self.dir.join("event.map.bak");
                 let l = self.dir.join("lmdb.bak");
